@@ -16,6 +16,7 @@
  */
 
 fn main() {
+    println!("cargo:rustc-check-cfg=cfg(starlark_verif)");
     rust_nightly();
 }
 
